@@ -35,9 +35,12 @@ def valid(a):
 
 
 class Scenario:
-    def __init__(self, r, n_join, tier):
+    def __init__(self, r, n_join, tier, storm=None):
         self.r = r
         self.n = n_join
+        # "storm": once every node has had its turn at joining, all of them query the master at about the same time,
+        # so that relays are busy with their own requests while their descendants' requests and answers pass through
+        self.storm = (n_join >= 5 and r.random() < 0.5) if storm is None else storm
         ids = r.sample(range(1, 256), n_join)
         self.ids = [0] + ids
         self.specs = [(0, "mesh", 0)] + [(k + 1, "mesh" if r.random() < 0.3 else "meshnode", ids[k]) for k in range(n_join)]
@@ -57,7 +60,7 @@ class Scenario:
     def describe(self):
         return {"ids": self.ids, "kinds": [s[1] for s in self.specs], "spi_cost": self.spi_cost, "jitter": self.jitter,
                 "gap": list(self.gap), "offsets": self.offsets, "stable": self.stable, "seed": self.seed,
-                "timeout_ns": self.timeout_ns}
+                "timeout_ns": self.timeout_ns, "storm": self.storm}
 
     # --- dynamic steps
     def joined(self, run, k):
@@ -101,10 +104,32 @@ class Scenario:
             return ("lookup_address", me)
         return f
 
+    def storm_op(self, k):
+        def f(run, t):
+            r = self.r
+            if t.obj._addr == UNASSIGNED:
+                return None
+            others = [j for j in range(1, self.n + 1) if j != k and run.tasks[j].obj._addr != UNASSIGNED]
+            x = r.random()
+            if x < 0.3 or not others:
+                return ("lookup_address", self.ids[k])
+            if x < 0.6:
+                return ("lookup_address", self.ids[r.choice(others)])
+            if x < 0.8:
+                return ("lookup_node_id", t.obj._addr)
+            return ("lookup_node_id", run.tasks[r.choice(others)].obj._addr)
+        return f
+
+    def all_had_a_turn(self, run, t):
+        return all(any(e["op"][0] == "renew" for e in x.log) or x.done for x in run.tasks[1:])
+
     def node_script(self, k):
         r = self.r
         sc = [("at", self.offsets[k]), ("call", ("renew", self.timeout_ns))]
         sc += [("call", self.pick_op(k)) for _ in range(r.randrange(0, 5))]
+        if self.storm:
+            sc += [("until", self.all_had_a_turn, 50_000, 400_000)]
+            sc += [("call", self.storm_op(k)) for _ in range(r.randrange(2, 5))]
         if k not in self.stable:
             sc += [("until", lambda run, t: True, *self.gap)] * r.randrange(0, 3)
             sc += [("call", ("release",))]
@@ -167,7 +192,10 @@ def _judge(sc, run, found):
     # the radios are half duplex: two nodes that transmit to each other at the same moment both fail, which is
     # packet loss even on a perfect medium.  C17 claims only "no exception, termination, valid-or-None" for what
     # such a loss touches; everything else is judged at full strength.
-    fails = [e for e in run.air if not e["ok"]]
+    # The same holds for a frame the receiving radio acknowledges but does not store: its RX FIFO is full, or the packet
+    # has the 2-bit PID and the payload of the previous one and is taken for a re-transmission (a relay that passes on
+    # two identical answers four packets apart) -- the transmitter sees an ACK, the frame is gone.
+    fails = [e for e in run.air if not e["ok"] or e.get("dropped_by")]
 
     def lossy(t0, t1, slack=2_000_000):
         return any(t0 - slack <= e["t"] <= t1 + slack for e in fails)
@@ -401,7 +429,7 @@ def run(rep, model, tier, seed):
         # the model no longer reproduces the code: look for a run on which the property itself fails
         for i in range(40):
             n = [6, 7, 8, 9, 7, 8][i % 6]
-            if run_scenario(rep, model, Scenario(common.rng(seed, "c17/hunt/%d" % i), n, tier), "hunt"):
+            if run_scenario(rep, model, Scenario(common.rng(seed, "c17/hunt/%d" % i), n, tier, storm=True), "hunt"):
                 break
     rep.extra["also_sampled_only"] = True
 
